@@ -726,14 +726,21 @@ def run(ck):
                       "entity counts never shrink inside one API call (re-validation assumption of Validate.prepare)",
                       "file-level operations (cg_open, cg_close, cg_save_as, cg_is_cgns, cgio_open_file, cgio_close_file, cgio_compress_file, cgio_copy_file, "
                       "library configuration / exit) are outside the domain; ADF / ADFH internals are reached only dynamically through cgio_*",
-                      "the current position (cg / posit) is navigation state, not session view: an invalid handle clears the current file and later "
-                      "node-context calls fail with 'no current CGNS file open'"]
+                      "the current FILE pointer (cg) is navigation state, not session view: an invalid handle clears it and later node-context calls "
+                      "fail with 'no current CGNS file open'; the current POSITION (cg_where), the current ZoneGridConnectivity_t (cg_zconn_get), "
+                      "cg_get_compress / cg_get_file_type / cg_get_cgio ARE compared (no public getter exists for the rind-index and search-path "
+                      "settings); the entry points that reconfigure the library (cg_configure, cg_set_*) are static-only"]
     ck.cov["rule"] = ("every callable public entry point (stub generated from the prototype table) x every argument position x every invalid class of its "
                       "kind (handle: closed / never issued / 0 / -1; index: 0 / -1 / count+1 / INT_MAX; name: empty / 33 / 1000 characters; enum: -1 / "
-                      "max+1; ranges and sizes: min>max, negative, beyond, 0 / -1 / 13 dimensions; data type strings) x {ADF, HDF5} x {rich structured + "
-                      "particles + second base, unstructured, bare zone} x {MODIFY, READ, WRITE}; each call in its own process with a watchdog; oracle: "
-                      "error status, non-empty message, read-API dump unchanged, cgio tree digest (and SHA-256 in READ mode) equal to a control run, no "
-                      "sanitizer report.  quick: all classes on ADF/rich/modify and ADF/bare/modify, seeded samples elsewhere.  non-trivial = the same "
+                      "max+1; ranges and sizes: min>max, negative, beyond, 0 / -1 / 13 dimensions; data type strings; STATE-DRIVEN BOUNDS: for every size "
+                      "/ count / range argument of the writers the values just inside and just outside each bound that zone (1,1) of the open file "
+                      "implies -- ncells, ncells+1, nvertices, nvertices+1 per GridLocation, VertexSize / CellSize (+1) per range, section and particle "
+                      "sizes, node sizes for cgio blocks; must-fail only where the rule catalogue R1-R9 of bound_variants knows the SIDS rule) x {ADF, "
+                      "HDF5} x {rich structured 3-D zone with three ZoneGridConnectivity_t (the second one current), two GridCoordinates_t, vertex and "
+                      "cell solutions, particles, a second base; unstructured; bare zone; 2-D structured zone with two ZoneGridConnectivity_t} x "
+                      "{MODIFY, READ, WRITE}; each call in its own process with a watchdog; oracle: error status, non-empty message, read-API dump "
+                      "(every ZoneGridConnectivity_t, the current one) unchanged, selection state (cg_where, compress, file type, cgio number) "
+                      "unchanged, cgio tree digest (and SHA-256 in READ mode) equal to a control run, no sanitizer report.  quick: all classes on ADF/rich/modify and ADF/bare/modify, seeded samples elsewhere.  non-trivial = the same "
                       "entry point accepts the valid variant in that configuration (the invalid argument is the only reason to fail); distinct by "
                       "(entry point, parameter, class, configuration)")
     work = ck.work
@@ -805,7 +812,7 @@ def run(ck):
                 w = [x for x in w if x.startswith("sanitizer")] + ([x for x in w if "hanged" in x or "CHANGED" in x] if c.get("st") not in (None, "0") else [])
             if w and (var["must"] or var["must"] == 0):
                 wit = {"level": "inv", "config": cfg, "backend": b, "state": st, "mode": mode, "entry": c["name"], "variant": c["v"], "desc": var["desc"],
-                       "what": w, "observed": {k: c.get(k) for k in ("st", "msg", "view", "tree", "file", "out")}, "stderr": c.get("stderr", [])[:6],
+                       "what": w, "observed": {k: c.get(k) for k in ("st", "msg", "view", "sel", "tree", "file", "out")}, "stderr": c.get("stderr", [])[:6],
                        "valid_variant_accepted_here": nontrivial,
                        "oracle": "an invalid argument => error status, non-empty message, read-API dump and file content unchanged, no sanitizer report",
                        "replay_hint": ".build/h/c12_drv inv <template %s/%s> <work> %d <entry index> <entry index + 1> %d %d" % (b, st, MODES[mode], c["v"], c["v"] + 1)}
@@ -949,7 +956,7 @@ def replay(ck, path):
     E = {e["name"]: e for e in entries}
     tm = make_templates(exe, ck.work)
     if r.get("level") == "inv" and r.get("entry") in idx:
-        b, st, mode = r["config"].split("/") if "config" in r else (r["backend"], r["state"], r["mode"])
+        b, st, mode = r["config"].split("/")[:3] if "config" in r else (r["backend"], r["state"], r["mode"])
         rs = run_cases(exe, tm[(b, st)], ck.work, b, MODES[mode], [(idx[r["entry"]], 0), (idx[r["entry"]], r["variant"])], "replay")
         fails, det = False, []
         for c in rs:
@@ -960,7 +967,9 @@ def replay(ck, path):
                     fails = True
                 continue
             w = judge(c, e, MODES[mode], var["must"])
-            det.append({"variant": var["desc"], "what": w, "observed": {k: c.get(k) for k in ("st", "msg", "view", "tree", "file", "out")}, "stderr": c.get("stderr", [])[:5]})
+            if var["must"] == 0:      # a value that may be legal: only a sanitizer report, or a change although the call was refused
+                w = [x for x in w if x.startswith("sanitizer")] + ([x for x in w if "hanged" in x or "CHANGED" in x] if c.get("st") not in (None, "0") else [])
+            det.append({"variant": var["desc"], "what": w, "observed": {k: c.get(k) for k in ("st", "msg", "view", "sel", "tree", "file", "out")}, "stderr": c.get("stderr", [])[:5]})
             fails = fails or bool(w)
     elif r.get("level") == "uac":
         lines, outcome = vlib.run_impl(exe, "", args=["uac", os.path.join(ck.work, "u1.cgns"), os.path.join(ck.work, "u2.cgns"), r["backend"], str(r["k"])], cwd=ck.work)
